@@ -374,6 +374,12 @@ INDIRECT_SCRIPTS = [
     'define f with y begin set y zone 2 set y row 0 on y end f "Top" f "Strip" f "Tile" f "Nope"',
     'repeat all as x with z from 0 to 3 begin set x zone z end',
     'define t "Tile" define s "Strip" set t zone 1 and s row 1 and t column 2 and s zone 0 7',
+    # loops over unknown groups / locations (nothing to visit) with every kind of accompanying range
+    'repeat in group "Nogroup" as x with h cycle begin hue h set x end on all',
+    'repeat in location "Nowhere" as x with h cycle 90 begin hue h set x end on all',
+    'repeat in group "Nogroup" and location "Nowhere" as x with b from 10 to 90 begin brightness b set x end off all',
+    'units raw repeat in group "Nogroup" as x with h cycle begin hue h set x end units logical on all',
+    'repeat in group "Nogroup" and "Top" as x with h cycle begin hue h set x end on all',
 ]
 
 
